@@ -100,25 +100,25 @@ theorem findInModule_notFound (env : Env) (name : String) :
 its number in the list declares the name. -/
 theorem closed_no_decl {env : Env} (hid : SeqId env.reg) (hlink : Linked env) {name : String} {S : List Nat}
     (hS : ∀ x ∈ S, Done env name S x) {a m : Mod} (hstar : IncludesStar env.reg a m) :
-    a ∈ env.reg.mods → a.seq ∈ S → declared m.stmt name = [] := by
+    a ∈ env.reg.mods → a.seq ∈ S → PartOfSchema env.reg a → declared m.stmt name = [] := by
   induction hstar with
   | refl a =>
-    intro ha hin
+    intro ha hin _
     obtain ⟨y, hy, hseq, hf, _⟩ := hS _ hin
     have : y = a := hid y hy a ha hseq
     subst this
     exact findIn_none hf
   | @head a b c hinc hrest ih =>
-    intro ha hin
+    intro ha hin hP
     obtain ⟨y, hy, hseq, _, hz⟩ := hS _ hin
     have : y = a := hid y hy a ha hseq
     subst this
-    have hb : b ∈ env.includeTargets y := by rw [hlink y hy]; exact hinc
-    exact ih (includeTargets_mem hb) (hz b hb)
+    have hb : b ∈ env.includeTargets y := by rw [hlink y hy hP]; exact hinc
+    exact ih (includeTargets_mem hb) (hz b hb) (hP.includes (IncludesStar.head hinc (IncludesStar.refl b)))
 
 /-- a foreign reference: if some (sub)module reachable from `ext` through include statements declares `name`, the search finds a typedef -/
 theorem findInModule_complete (env : Env) (hid : SeqId env.reg) (hlink : Linked env) (name : String)
-    (ext : Mod) (hext : ext ∈ env.reg.mods) (m : Mod) (hstar : IncludesStar env.reg ext m)
+    (ext : Mod) (hext : ext ∈ env.reg.mods) (hsch : PartOfSchema env.reg ext) (m : Mod) (hstar : IncludesStar env.reg ext m)
     (hdecl : declared m.stmt name ≠ []) :
     ∃ r, (findInModule env name env.modFuel ext []).1 = .found r := by
   cases hres : (findInModule env name env.modFuel ext []).1 with
@@ -129,11 +129,11 @@ theorem findInModule_complete (env : Env) (hid : SeqId env.reg) (hlink : Linked 
     have heq : findInModule env name env.modFuel ext [] =
         (.notFound, (findInModule env name env.modFuel ext []).2) := by rw [← hres]
     obtain ⟨he, hin⟩ := findInModule_notFound env name _ _ _ _ hext heq
-    exact hdecl (closed_no_decl hid hlink (fun x hx => he.2 x hx (by simp)) hstar hext hin)
+    exact hdecl (closed_no_decl hid hlink (fun x hx => he.2 x hx (by simp)) hstar hext hin hsch)
 
 /-- a local reference at module level -/
 theorem findLocalModules_complete (env : Env) (hid : SeqId env.reg) (hlink : Linked env) (name : String)
-    (root : Mod) (hroot : root ∈ env.reg.mods) (m : Mod) (hunit : InUnit env.reg root m)
+    (root : Mod) (hroot : root ∈ env.reg.mods) (hsch : PartOfSchema env.reg root) (m : Mod) (hunit : InUnit env.reg root m)
     (hdecl : declared m.stmt name ≠ []) :
     ∃ r, findLocalModules env root name = .found r := by
   cases hres : findLocalModules env root name with
@@ -165,9 +165,9 @@ theorem findLocalModules_complete (env : Env) (hid : SeqId env.reg) (hlink : Lin
           | some b => root :: (env.reg.getModule b).toList
           | none => [root]) []).2, Done env name _ x := fun x hx => he.2 x hx (by simp)
     rcases hunit with hstar | ⟨b, o, hb, ho, hstar⟩
-    · refine hdecl (closed_no_decl hid hlink hS hstar hroot (hin root ?_))
+    · refine hdecl (closed_no_decl hid hlink hS hstar hroot (hin root ?_) hsch)
       split <;> exact List.mem_cons_self
-    · refine hdecl (closed_no_decl hid hlink hS hstar (getModule_mem ho) (hin o ?_))
+    · refine hdecl (closed_no_decl hid hlink hS hstar (getModule_mem ho) (hin o ?_) (partOfSchema_getModule ho))
       rw [hb]
       simp only [ho, Option.toList_some]
       exact List.mem_cons_of_mem _ List.mem_cons_self
